@@ -16,6 +16,7 @@ import (
 // returns.
 func ZZVerifC12LateChild() {
 	nd.Schedule(nd.Param("P", 2))
+	nd.Races()
 	parent := New(Params{Name: "p"})
 	mode := nd.Choose("mode", 4)
 	isolated := nd.Choose("isolated", 2) == 1
